@@ -70,3 +70,21 @@ func StaticGrammars() []*Grammar {
 	}}}
 	return []*Grammar{sr1, sr2, sr3}
 }
+
+// ChainGrammar is a grammar of n productions, each of which wraps the next one between two literals
+// (P_i = "a" @@P_{i+1} "z", the last one @Ident): many productions, each with text after its reference.
+func ChainGrammar(n int) *Grammar {
+	g := &Grammar{Lookahead: 1, Elide: []string{"WS"}, Unions: []Union{{Members: []int{0}, Ptr: []bool{false}}}}
+	for i := 0; i < n; i++ {
+		p := &Prod{PosStyle: 3}
+		if i == n-1 {
+			p.Expr = capAt(Ref("Ident"), 0)
+			p.Fields = []Field{fld(FStr, -1)}
+		} else {
+			p.Expr = Seq(Lit("a"), subAt(i+1, 0), Group("?", Lit("z")), Lit(";"))
+			p.Fields = []Field{fld(FSub, i+1)}
+		}
+		g.Prods = append(g.Prods, p)
+	}
+	return g
+}
